@@ -392,13 +392,110 @@ fn gen_conc_plan(rng: &mut Rng, thorough: bool) -> ConcPlan {
     }
 }
 
+/// an entry type of 16 KiB (inline): the ring must still hold `capacity` of them
+struct BigEntry {
+    id: u64,
+    #[allow(dead_code)]
+    pad: [u8; 16_384],
+}
+impl metrique_writer::Entry for BigEntry {
+    fn write<'a>(&'a self, writer: &mut impl metrique_writer::EntryWriter<'a>) {
+        writer.value("id", &self.id);
+    }
+}
+
+/// Configurations the random histories do not reach: (i) two queues with different names that
+/// report to the GLOBAL metrics recorder - each queue's losses under its own name; (ii) a queue of
+/// large entries with a large capacity. Both with a writer held at the gate, so the expected
+/// number of discards is exact.
+fn configuration_scenarios(rep: &Report) {
+    // (i)
+    let global = Arc::new(Counts::default());
+    if metrics::set_global_recorder(CountingRecorder(global.clone())).is_ok() {
+        rep.eval();
+        let mut expected = vec![];
+        let mut queues = vec![];
+        for (name, capacity, extra) in [("verif_queue_a", 4usize, 7u32), ("verif_queue_b", 9, 22), ("verif_queue_c", 3, 0)] {
+            let sh = StreamShared::new(1);
+            sh.set_fuel(Some(0));
+            let (q, h) = BackgroundQueueBuilder::new()
+                .capacity(capacity)
+                .flush_interval(Duration::from_micros(100))
+                .metric_name(name)
+                .metrics_recorder_global::<dyn metrics::Recorder>()
+                .build::<IdEntry>(sh.stream());
+            // one entry in the writer's hand, `capacity` in the ring, `extra` more: exactly `extra` are displaced
+            q.append(IdEntry::new(0, 0));
+            let _ = progress_wait(|| sh.blocked_next.load(Ordering::SeqCst), default_stall());
+            for s in 1..=(capacity as u32 + extra) {
+                q.append(IdEntry::new(0, s));
+            }
+            expected.push((name, extra as u64, capacity as u64 + 1));
+            queues.push((sh, q, h));
+        }
+        let mut delivered = vec![];
+        for (sh, q, h) in queues {
+            sh.open_all();
+            drop(q);
+            h.shut_down();
+            delivered.push(sh.log().iter().filter(|e| e.id().is_some()).count() as u64);
+        }
+        for ((name, lost, kept), got_delivered) in expected.iter().zip(&delivered) {
+            let counted = global.counter_with_label_value("metrique_queue_overflows", name);
+            if counted != *lost || got_delivered != kept {
+                rep.violation(
+                    "overflow-counter-differs-from-discards",
+                    json!({"what": "several named queues reporting to the global metrics recorder, writers held: each queue's overflow counter (the one labelled with its name) must equal the number of entries it discarded",
+                           "queue": name, "discarded": lost, "counter_labelled_with_queue_name": counted, "delivered": got_delivered, "expected_delivered": kept,
+                           "label_sets_of_the_counter": global.label_sets("metrique_queue_overflows"), "sum_over_all_labels": global.counter("metrique_queue_overflows")}),
+                );
+                return;
+            }
+        }
+        rep.count("global_recorder_queues_checked", expected.len() as u64);
+        rep.distinct(Fnv::new().str("global-recorder").finish());
+    }
+    // (ii)
+    rep.eval();
+    let capacity = 8192usize;
+    let sh = StreamShared::new(2);
+    sh.set_fuel(Some(0));
+    let counts = Arc::new(Counts::default());
+    let (q, h) = BackgroundQueueBuilder::new()
+        .capacity(capacity)
+        .flush_interval(Duration::from_micros(100))
+        .metrics_recorder_local::<dyn metrics::Recorder, _>(CountingRecorder(counts.clone()))
+        .build::<BigEntry>(sh.stream());
+    q.append(BigEntry { id: make_id(0, 0), pad: [0; 16_384] });
+    let _ = progress_wait(|| sh.blocked_next.load(Ordering::SeqCst), default_stall());
+    for s in 1..=capacity as u32 {
+        q.append(BigEntry { id: make_id(0, s), pad: [s as u8; 16_384] });
+    }
+    sh.open_all();
+    drop(q);
+    h.shut_down();
+    let ids: Vec<u64> = sh.log().iter().filter_map(|e| e.id()).collect();
+    let overflows = counts.counter("metrique_queue_overflows");
+    let in_order = ids.windows(2).all(|w| w[0] < w[1]);
+    if ids.len() != capacity + 1 || overflows != 0 || !in_order {
+        rep.violation(
+            "lost-without-being-displaced",
+            json!({"what": "16 KiB entries, capacity 8192, writer held with one entry in hand, exactly `capacity` more appended: nothing may be discarded",
+                   "delivered": ids.len(), "expected": capacity + 1, "overflow_counter": overflows, "in_order": in_order, "first_missing": (0..=capacity as u32).find(|s| !ids.contains(&make_id(0, *s)))}),
+        );
+        return;
+    }
+    rep.count("large_entry_scenarios", 1);
+    rep.distinct(Fnv::new().str("large-entries").finish());
+}
+
 fn native_main(args: &Args, rep: &Report) {
     rep.rule(
         "(a) sequential histories: one producer, writer held at a fuel gate inside next() with one popped entry in hand, \
          random bursts / amounts of writer progress, capacities {1,2,3,4,7,8,16,33} and, in 1 of 12 histories, {100,1000,1024,5000}; the stream log must EQUAL a displace-oldest \
          reference ring and the overflow counter the displaced count. (b) concurrent histories: 1-6 producers against a \
          stalled / slow / free writer; per-producer order, conservation appended = delivered + overflow counter, and every lost entry \
-         has >= capacity later appends. Appends must return while the gate is closed. distinct = distinct plans / delivery signatures with loss",
+         has >= capacity later appends. Appends must return while the gate is closed. (c) configuration scenarios: three named queues reporting to the GLOBAL metrics recorder (each queue's losses under its own label), and a queue of 16 KiB entries with capacity 8192. distinct = distinct plans / delivery signatures with loss",
     );
     vcommon::sync::install_perturbation(args.seed, 50);
     let budget = Duration::from_secs(args.get_u64("secs", args.by_tier(12, 150)));
@@ -434,6 +531,9 @@ fn native_main(args: &Args, rep: &Report) {
             });
         }
     });
+    if rep.violation_count() == 0 {
+        configuration_scenarios(rep);
+    }
     for (name, hits) in vcommon::sync::hook_hits() {
         rep.set(&format!("hook:{name}"), hits);
     }
